@@ -50,7 +50,7 @@ _TNAME = c04._TNAME
 def strategy(tier):
   return st.fixed_dictionaries(
     dict(
-      scene=gen.scene_strategy(types=st.sampled_from(c04._MENUS), nmax=6 if tier == "thorough" else 5),
+      scene=gen.scene_strategy(types=st.sampled_from(c04._MENUS + [["capsule"], ["capsule"], ["capsule", "sphere"]]), aligned=st.sampled_from([0.0, 0.3, 1.0, 1.0]), nmax=6 if tier == "thorough" else 5),
       multiccd=st.booleans(),
       translate=st.booleans(),
       tilt=st.sampled_from([0.0, 0.0, 0.15, 0.6]),
